@@ -1,4 +1,5 @@
 import LarkVerif.Priority
+import LarkVerif.Choice
 import LarkVerif.Extracted
 /-! # C05 — default ambiguity resolution is priority-optimal -/
 namespace Props.C05
@@ -50,6 +51,20 @@ theorem invert_is_min (t : AO) (x : Int) (hx : x ∈ derivs t) : ∃ m, prio (ne
 
 /-- the tie-break order among equally good alternatives, as it is in the current source: non-empty first, priority, rule order -/
 theorem packed_sort_key_is_documented : Extracted.packedSortKey = [("+", "self.is_empty"), ("-", "self.priority"), ("+", "self.rule.order")] := by decide
+
+/-- **The choice function** (`sorted(children, key=sort_key)[0]` with the key above).  Built-in precedence: a directly empty alternative is chosen only
+    where every alternative of the node is empty … -/
+theorem empty_alternative_only_if_nothing_else (l : List ChoiceProto.Fam) (c : ChoiceProto.Fam) (h : ChoiceProto.choose l = some c)
+    (hc : c.isEmpty = true) : ∀ f ∈ l, f.isEmpty = true := ChoiceProto.empty_chosen_only_if_all_empty l c h hc
+
+/-- … otherwise the chosen alternative has the highest priority among the non-empty ones … -/
+theorem chosen_alternative_has_max_priority (l : List ChoiceProto.Fam) (c : ChoiceProto.Fam) (h : ChoiceProto.choose l = some c) :
+    ∀ f ∈ l, f.isEmpty = false → f.prio ≤ c.prio := ChoiceProto.chosen_has_max_priority l c h
+
+/-- … and among equally good ones it is the alternative written first: the choice is a function of grammar and input, not of hash order
+    (families of the *same* rule with different split points share a key: there the order is the forest's iteration order, compared per hash seed). -/
+theorem ties_go_to_the_first_alternative (l : List ChoiceProto.Fam) (c : ChoiceProto.Fam) (h : ChoiceProto.choose l = some c) :
+    ∀ f ∈ l, f.isEmpty = c.isEmpty → f.prio = c.prio → c.order ≤ f.order := ChoiceProto.chosen_is_first_written l c h
 
 example : prio (.orCons (.and1 2 (.leaf 0)) (.orCons (.and2 0 (.leaf 1) (.leaf 3)) .orNil)) = some 4 := by decide
 
